@@ -87,11 +87,12 @@ Proof.
   exact (good_fault _ _ (good_sem I l 0%nat []) rs [] [] out reqs sl rest k rp cc Hr Hn Hc Hcc Logic.I Hlen).
 Qed.
 
-Lemma classified_in_gen ops : forallb (classified ops) ops = true ->
-  forall o, In o ops -> simple_checked ops o = true \/ handled o = true.
+Lemma classified_in_gen ops : forallb (classified_or_downgraded ops) ops = true ->
+  forall o, In o ops -> simple_checked ops o = true \/ handled o = true \/ tainted ops o = true.
 Proof.
-  intros A o H. apply orb_true_iff.
-  exact (proj1 (forallb_forall (classified ops) ops) A o H).
+  intros A o H. pose proof (proj1 (forallb_forall (classified_or_downgraded ops) ops) A o H) as C.
+  unfold classified_or_downgraded, classified in C.
+  apply orb_true_iff in C as [C | C]; [apply orb_true_iff in C as [C | C] |]; auto.
 Qed.
 
 (* ---- busy answers raised by the transport: the same request is sent again ---- *)
